@@ -36,15 +36,15 @@ def run(ctx, prop):
     hb = ctx.build("tasklane", race=race)
     args = [hb, "-out", ctx.path("traces.ndjson")]
     if q:
-        args += ["-random", "40", "-gatek", "1", "-atrest", "1", "-panics", "4", "-burst", "2", "-burstper", "50", "-timeouts", "3"]
+        args += ["-random", "40", "-gatek", "1", "-atrest", "1", "-panics", "4", "-burst", "2", "-burstper", "50", "-timeouts", "3", "-lastpanic", "12"]
     else:
-        args += ["-random", "600", "-gatek", "3", "-atrest", "8", "-panics", "60", "-burst", "24", "-burstper", "150", "-timeouts", "40"]
+        args += ["-random", "600", "-gatek", "3", "-atrest", "8", "-panics", "60", "-burst", "24", "-burstper", "150", "-timeouts", "40", "-lastpanic", "150"]
     p = ctx.run(args, timeout=3000, ok_codes=(0, 66, 2), env={"GORACE": "halt_on_error=0"})
     if p.returncode == 2:
         # the harness process died: a Go run-time panic that escaped (or happened inside) the lane's own goroutines
         m_ = re.search(r"^(panic: .*|fatal error: .*)$", p.stderr, re.M)
         if m_ and "tasklane.(*TaskLane)" in p.stderr and "tasklane/tasklane.go" in p.stderr:
-            if prop in ("C14", "C06"):
+            if prop in ("C14", "C06", "C07"):
                 frame = re.search(r"tasklane\.\(\*TaskLane\)\.(\w+)", p.stderr)
                 ctx.violation("process crashed inside tasklane.%s" % (frame.group(1) if frame else "?"),
                               "a panic was not contained: the process died with %r inside the lane's goroutine:\n%s" % (m_.group(1), p.stderr[:1500]),
